@@ -435,7 +435,8 @@ class Executor(object):
         if attr == "dtype":
             return [(st, "dtype")]
         if attr == "shape" and (is_z3(v) or isinstance(v, (int, Fraction, LinComb, BlockVec))):
-            return [(st, ())]
+            # element-wise lifting: the element is slot 0 of a length-1 view of the vector
+            return [(st, (1,) if ctx.lifted else ())]
         if isinstance(v, ExcVal) and attr == "__cause__":
             return [(st, v.cause)]
         if attr == "mT" or attr == "T":
@@ -713,6 +714,17 @@ class Executor(object):
             # spec helpers taking lambdas (quantifiers) are evaluated lazily
             if isinstance(f, ModuleRef) and f.path in ("forall", "exists") and ctx.spec:
                 out.append((s, self.quantifier(f.path, node, s, ctx)))
+                continue
+            if isinstance(f, ModuleRef) and f.path == "defined" and ctx.spec:
+                out.append((s, all(n.value in s.env for n in node.args)))
+                continue
+            if isinstance(f, ModuleRef) and f.path == "implies" and ctx.spec and len(node.args) == 2:
+                a = self.eval1(node.args[0], s, ctx)
+                if isinstance(a, bool) and not a:
+                    out.append((s, True))
+                    continue
+                b = self.eval1(node.args[1], s, ctx)
+                out.append((s, to_bool(b) if (isinstance(a, bool) and a) else z3.Implies(to_bool(a), to_bool(b))))
                 continue
             if isinstance(f, ModuleRef) and f.path == "old" and ctx.spec:
                 es = ctx.entry
@@ -1181,7 +1193,8 @@ class Executor(object):
         if len(node.targets) == 1:
             t = node.targets[0]
             base = t.id if isinstance(t, ast.Name) else (t.value.id if isinstance(t, ast.Subscript) and isinstance(t.value, ast.Name) else None)
-            if base in c.abstract and any(isinstance(n, ast.Div) for n in ast.walk(node.value)):
+            if base in c.abstract and any(isinstance(n, ast.BinOp) and isinstance(n.op, ast.Div) and not isinstance(n.right, ast.Constant)
+                                          for n in ast.walk(node.value)):
                 return self.fresh("Real", base + "_abs")
         return v
 
@@ -1398,9 +1411,32 @@ class Executor(object):
         return out
 
     # ---- loops ---------------------------------------------------------------------------------
+    def loop_ordinal(self, node, ctx):
+        """Syntactic ordinal of a loop among the For/While statements of the enclosing top-level function
+        (pre-order), the key used by the sidecar contracts."""
+        fi = ctx.finfo
+        if fi is None:
+            return -1
+        cache = getattr(fi, "_loop_ids", None)
+        if cache is None or cache[0] is not fi.node:
+            ids = {}
+            k = 0
+            for n in ast.walk(fi.node):
+                pass
+            def visit(n):
+                nonlocal k
+                for ch in ast.iter_child_nodes(n):
+                    if isinstance(ch, (ast.For, ast.While)):
+                        ids[id(ch)] = k
+                        k += 1
+                    visit(ch)
+            visit(fi.node)
+            cache = (fi.node, ids)
+            fi._loop_ids = cache
+        return cache[1].get(id(node), -1)
+
     def s_For(self, node, st, ctx):
-        k = ctx.loop_counter[0]
-        ctx.loop_counter[0] += 1
+        k = self.loop_ordinal(node, ctx)
         out = []
         for s, itv in self.eval(node.iter, st, ctx):
             if isinstance(itv, Raised):
@@ -1414,13 +1450,11 @@ class Executor(object):
                     raise
                 out.extend(self.symbolic_for(node, itv, s, ctx, k, spec))
                 continue
-            saved_counter = ctx.loop_counter[0]
             live = [(s, None)]
             done = []
             for it in items:
                 nxt = []
                 for s1, oc in live:
-                    ctx.loop_counter[0] = saved_counter
                     for s2, oc0 in self.assign_target(node.target, it, s1, ctx):
                         if oc0 is not None:
                             done.append((s2, oc0))
@@ -1448,12 +1482,15 @@ class Executor(object):
         raise Unsupported("symbolic for-loop at line %d" % node.lineno)
 
     def s_While(self, node, st, ctx):
-        k = ctx.loop_counter[0]
-        ctx.loop_counter[0] += 1
+        k = self.loop_ordinal(node, ctx)
         spec = ctx.contract.loops.get(k) if ctx.contract and ctx.contract.loops else None
         if spec is None:
             return self.unroll_while(node, st, ctx)
         lineno = node.lineno
+        if spec.get("capture") is not None:
+            # harness hook: hand the state at the loop head to the caller and stop this path
+            spec["capture"](st, node, ctx)
+            return []
         invs = spec.get("invariant", [])
         variant = spec.get("variant")
         # 1. invariant holds on entry
@@ -1483,9 +1520,7 @@ class Executor(object):
             if self.feasible(sb):
                 v0 = self.eval_spec(variant, sb, ctx) if variant else None
                 vguard0 = to_bool(self.eval_spec(spec["variant_while"], sb, ctx)) if spec.get("variant_while") else None
-                saved_counter = ctx.loop_counter[0]
                 body_results = self.exec_block(node.body, sb, ctx)
-                ctx.loop_counter[0] = saved_counter
                 for j, (s2, oc) in enumerate(body_results):
                     if oc is None or oc[0] == "continue":
                         tr = ".".join("%d%s" % (ln, "T" if b else "F") for ln, b in s2.trace[len(s.trace):])
@@ -1593,7 +1628,7 @@ class Executor(object):
             return Opaque(name)
         raise Unsupported("sort %r" % (sort,))
 
-    def verify(self, c, extra_assume=None, post_hook=None, region=None, args_override=None):
+    def verify(self, c, extra_assume=None, post_hook=None, region=None, args_override=None, regions=None):
         """Verify function c.func against contract c.  Returns the list of (state, value) return paths."""
         fi = self.src.func(c.file, c.func)
         st = State()
@@ -1645,7 +1680,11 @@ class Executor(object):
             env.update(extra)
             for j, e in enumerate(clauses):
                 g = self.eval_spec(e, s, pctx, extra=env)
-                self.prove(s, pctx, g, kind, "%s#%d[%s]" % (kind, j, tr), region=region)
+                reg_j = region
+                if regions and (kind, j) in regions:
+                    fid, rtext = regions[(kind, j)]
+                    reg_j = (fid + ": " + rtext, to_bool(self.eval_spec(rtext, s, pctx, extra=env)))
+                self.prove(s, pctx, g, kind, "%s#%d[%s]" % (kind, j, tr), region=reg_j)
             if post_hook:
                 post_hook(self, s, v, pctx, tr)
             rets.append((s, v))
